@@ -744,6 +744,13 @@ func (t *Tracer) refine(fr *frame, cond ssa.Value, val bool, p *pstate) bool {
 		if c.Op == token.NOT {
 			return t.refine(fr, c.X, !val, p)
 		}
+		if call := structResultOf(c); call != nil {
+			t.setOutcome(p, call, fmt.Sprint(val))
+		}
+	case *ssa.Field:
+		if call := structResultOf(c); call != nil {
+			t.setOutcome(p, call, fmt.Sprint(val))
+		}
 	case *ssa.Phi:
 		// short-circuit && / || : cannot interpret in general
 		return true
@@ -841,7 +848,43 @@ func (t *Tracer) isStateRead(v ssa.Value) bool {
 	return false
 }
 
+// structResultOf: v reads a bool or error field of the struct value a call returned (res := f(); res.ok): that call.
+func structResultOf(v ssa.Value) *ssa.Call {
+	var from ssa.Value
+	var ft types.Type
+	switch x := v.(type) {
+	case *ssa.Field:
+		from = x.X
+		ft = x.Type()
+	case *ssa.UnOp:
+		fa, ok := x.X.(*ssa.FieldAddr)
+		if !ok || x.Op != token.MUL {
+			return nil
+		}
+		al, ok := fa.X.(*ssa.Alloc)
+		if !ok {
+			return nil
+		}
+		sts := CellStores(al)
+		if len(sts) != 1 {
+			return nil
+		}
+		from = sts[0]
+		ft = x.Type()
+	default:
+		return nil
+	}
+	call, ok := from.(*ssa.Call)
+	if !ok || !(isBool(ft) || types.Identical(ft, types.Universe.Lookup("error").Type())) {
+		return nil
+	}
+	return call
+}
+
 func (t *Tracer) setOutcome(p *pstate, v ssa.Value, outcome string) {
+	if call := structResultOf(v); call != nil {
+		v = call
+	}
 	// v may be the call result itself or an extract of a tuple call
 	if ex, ok := v.(*ssa.Extract); ok {
 		t.setOutcomeExtract(p, ex, outcome)
@@ -1146,7 +1189,9 @@ type Registration struct {
 	Key    string
 	Fn     *ssa.Function // the handler
 	Site   *ssa.Call
-	Parent *ssa.Function
+	Parent *ssa.Function // the function the registration belongs to (see LogicalOwner)
+	Where  *ssa.Function // the function that contains the call
+	Chain  []*ssa.Call   // call sites from Parent down to Where (empty when they are the same)
 }
 
 // Registrations finds all handler registrations in the package (in source order per function).
@@ -1166,8 +1211,9 @@ func (m *SessionModel) Registrations() []Registration {
 			if name != "HandleIncoming" && name != "HandleOutgoing" {
 				return
 			}
+			owner, chain := LogicalOwner(fn)
 			out = append(out, Registration{In: name == "HandleIncoming", Key: m.MsgTypeKey(call.Call.Args[0]),
-				Fn: ClosureFn(call.Call.Args[1]), Site: call, Parent: fn})
+				Fn: ClosureFn(call.Call.Args[1]), Site: call, Parent: owner, Where: fn, Chain: chain})
 		})
 	}
 	sort.SliceStable(out, func(i, j int) bool { return out[i].Site.Pos() < out[j].Site.Pos() })
